@@ -379,6 +379,14 @@ func exercise[T any](c *chk, m fpgo.MaybeDef[T], v, fb T, p params) {
 		if !ab && (!r1 || r2) {
 			c.fail("C01/IsType", "IsType(own type)=%v IsType(other type)=%v", r1, r2)
 		}
+		// IsType is the question "is Type() this type": it agrees with Type() - for an absent value too
+		// (Type() is nil there, whatever pointer type the nil had)
+		if !m.IsType(m.Type()) {
+			c.fail("C01/IsType", "IsType(Type())=false, Type()=%v", m.Type())
+		}
+		if ab && reflect.TypeOf(av) != nil && r1 {
+			c.fail("C01/IsType", "absent value (a nil %v): Type() is nil but IsType(%v)=true", reflect.TypeOf(av), reflect.TypeOf(av))
+		}
 	})
 	c.call("IsKind", func() {
 		own := reflect.ValueOf(av).Kind()
@@ -637,6 +645,8 @@ var anyShapes = []string{
 	// values whose own String()/Error() method panics for this particular value: rendering them is the
 	// observers' business and must not panic either (fmt prints such values as %!v(PANIC=...))
 	"faulty Stringer", "struct embedding nil Stringer", "*faulty error",
+	// a reflect.Value is an ordinary struct value, whatever it describes
+	"reflect.Value(ptr)", "reflect.Value(nil ptr)", "reflect.Value(int)", "reflect.Value{}",
 }
 
 // weekday-like enum whose String() indexes a table: out-of-range values make String() panic
@@ -746,6 +756,15 @@ func buildAny(shape string, p picks) (v any, fb any) {
 	case "*map(nil)":
 		var mm map[string]int
 		return &mm, fb
+	case "reflect.Value(ptr)":
+		x := int(p.I)
+		return reflect.ValueOf(&x), fb
+	case "reflect.Value(nil ptr)":
+		return reflect.ValueOf((*int)(nil)), fb
+	case "reflect.Value(int)":
+		return reflect.ValueOf(int(p.I)), fb
+	case "reflect.Value{}":
+		return reflect.Value{}, fb
 	case "faulty Stringer":
 		return faultyEnum(7 + int(p.I&3)), fb
 	case "struct embedding nil Stringer":
